@@ -561,7 +561,8 @@ def run_case(ctx, c, reqs, pending, paths=('memory', 'eager', 'lazy')):
                              site='iter_segments')
             reqs.append(('build', dict(margs, keys=[[(-1 if s is None else s), p] for s, p in keys])))
             pd = bytes(ds.PixelData)
-            pending.append((desc, 'build', {'nframes': nf, 'keys': sorted([(-1 if s is None else s), p] for s, p in keys),
+            pending.append((desc, 'build', {'nframes': nf, 'bits': int(ds.BitsAllocated), 'overlap': str(ds.SegmentsOverlap),
+                                            'keys': sorted([(-1 if s is None else s), p] for s, p in keys),
                                             'order': [[(-1 if s is None else s), p] for s, p in keys],
                                             'pd': list(pd) if c['ts'] in NATIVE else None,
                                             'frames': {f'{-1 if s is None else s},{p}': px[i].astype(np.int64).reshape(-1).tolist()
@@ -696,6 +697,12 @@ def _compare(ctx, reqs, pending):
             if m['nframes'] != impl['nframes']:
                 ctx.disagree('L1', case, impl['nframes'], m['nframes'], 'NumberOfFrames')
                 continue
+            if m['bits'] != impl['bits']:
+                ctx.disagree('L1', case, impl['bits'], m['bits'], 'BitsAllocated')
+                continue
+            if m['overlap'] != impl['overlap']:
+                ctx.disagree('L1', case, impl['overlap'], m['overlap'], 'SegmentsOverlap')
+                continue
             mframes = {f'{s},{p}': px for s, p, px in m['frames']}
             if sorted(mframes) != sorted(impl['frames']):
                 ctx.disagree('L1', case, sorted(impl['frames']), sorted(mframes), 'set of stored (segment, plane)')
@@ -743,6 +750,44 @@ def run(ctx):
         c = gen_case(ctx, idx)
         run_case(ctx, c, reqs, pending)
     _compare(ctx, reqs, pending)
+
+
+def shrink(ctx, failure):
+    """Smaller case failing at the same site: fewer planes / rows / cols / segments (content is re-drawn from the
+    case's PRNG, so each candidate is simply tried)."""
+    case = {k: v for k, v in failure['case'].items() if k not in ('path', 'request', 'order', 'bad_applied')}
+    if 'read_perm_seed' not in case:
+        return None
+    site = failure.get('site')
+    best = failure
+    tries = 0
+    improved = True
+    while improved and tries < 24:
+        improved = False
+        cur = {k: v for k, v in best['case'].items() if k not in ('path', 'request', 'order', 'bad_applied')}
+        cands = []
+        if cur['planes'] > 1:
+            cands.append(dict(cur, planes=cur['planes'] - 1, src_order=sorted(range(cur['planes'] - 1),
+                                                                               key=lambda i: cur['src_order'][i])))
+        for k in ('rows', 'cols'):
+            if cur[k] > 1 and not cur['ts'].startswith('JPEG-LS'):
+                cands.append(dict(cur, **{k: max(1, cur[k] // 2)}))
+                cands.append(dict(cur, **{k: cur[k] - 1}))
+        if len(cur['segs']) > 1 and cur['type'] != 'LABELMAP':
+            cands.append(dict(cur, segs=cur['segs'][:-1]))
+        for cand in cands:
+            tries += 1
+            sub = type(ctx)(ctx.prop, cand.get('tier', ctx.tier), ctx.seed, 1, ctx.driver)
+            try:
+                run_case(sub, cand, [], [], paths=('memory', 'eager', 'lazy'))
+            except Exception:  # noqa: BLE001
+                continue
+            same = [f for f in sub.failures if f.get('site') == site]
+            if same:
+                best = same[0]
+                improved = True
+                break
+    return best
 
 
 def replay(ctx, case):
